@@ -302,6 +302,30 @@ func modelAgrees(n *mnode, full reflect.Value) bool {
 		if !full.IsValid() || full.Kind() != reflect.Map || full.Len() != len(n.children)/2 {
 			return false
 		}
+		// container-valued entries: each must be matched by a distinct entry of
+		// the full map whose value has the same structure (maps are unordered)
+		used := map[int]bool{}
+		var vals []reflect.Value
+		it := full.MapRange()
+		for it.Next() {
+			vals = append(vals, it.Value())
+		}
+		for i := 1; i < len(n.children); i += 2 {
+			c := n.children[i]
+			if c.kind == 'o' {
+				continue
+			}
+			found := false
+			for j, v := range vals {
+				if !used[j] && modelAgrees(c, v) {
+					used[j], found = true, true
+					break
+				}
+			}
+			if !found {
+				return false
+			}
+		}
 	}
 	return true
 }
